@@ -85,7 +85,7 @@ theorem bodyA3_toV3BodyS {V : Type} (cs : List String) (p : Param2 V) (hl : p.lo
       · simp [he, formMime_star]
       · simp [he, hc']
     have hb : toV3BodyS cs p = .val { required := p.required, mimes := if cs.isEmpty then ["*/*"] else cs,
-                                      schema := some (toV3S s) } := by
+                                      schema := some (toV3S s), origName := p.name != "" } := by
       simp [toV3BodyS, hsch]
     rw [hb]
     simp only [bodyA3, hm, Bool.false_eq_true, if_false]
@@ -440,7 +440,7 @@ theorem fromV3Body_toV3BodyS {V : Type} (cs : List String) (p : Param2 V) (s : S
       [.val { name := nm, loc := "body", required := p.required, cons := {}, items := none,
               schema := some (fromV3S (toV3S s)) }] := by
   have hb : toV3BodyS cs p = .val { required := p.required, mimes := if cs.isEmpty then ["*/*"] else cs,
-                                    schema := some (toV3S s) } := by
+                                    schema := some (toV3S s), origName := p.name != "" } := by
     simp [toV3BodyS, hs]
   have hm : (if cs.isEmpty then ["*/*"] else cs).any isFormMime = false := by
     by_cases he : cs.isEmpty
@@ -753,11 +753,7 @@ theorem api2_roundtrip_body {V : Type} (d : Doc2 V) (h : docBodyBack d = true) :
       simp only [List.nil_append, dedupLast_nodup _ hnd]
       exact hb2
     · intro x
-      have hs : ∀ y ∈ d.loc.schemes, y = "http" ∨ y = "https" := by
-        intro y hy
-        have := List.all_eq_true.mp hschemes y hy
-        simpa using this
-      exact servers_roundtrip_partial d.loc hhost hs x
+      exact servers_roundtrip_partial d.loc hhost (fun y hy => List.all_eq_true.mp hschemes y hy) x
 
 /-- non-vacuity of `api2_roundtrip_body`: the document of the example above (body parameter inline between other
     parameters and shared; discriminator and a reference inside additionalProperties in the body schema) with one
